@@ -62,6 +62,10 @@ OPS = {
     # the same writes into a layer directory that has no write bit (restored read-only): READONLY marks it
     "write-env-readonly-dir": (RICH + ["READONLY"], [KEEP, {"op": "write_env", "name": "a", "env": ENV_OTHER}]),
     "handle-update-readonly-dir": (RICH + ["READONLY"], [{"op": "handle", "name": "a", "types": [True, False, True], "strategy": "update", "result": RESULT}]),
+    # <layer>.toml is a symlink to a regular file elsewhere in the sandbox (TOMLLINK): whatever the code does about the link is file operations too
+    "cached-keep-toml-link": (RICH + ["TOMLLINK"], [KEEP]),
+    "write-metadata-toml-link": (RICH + ["TOMLLINK"], [KEEP, {"op": "write_metadata", "name": "a", "metadata": {"version": "4"}}]),
+    "handle-update-toml-link": (RICH + ["TOMLLINK"], [{"op": "handle", "name": "a", "types": [True, False, True], "strategy": "update", "result": RESULT}]),
 }
 # runtime phases through the real executable
 RUNTIME = {
@@ -112,7 +116,8 @@ def prepare(root, name):
     if name in OPS:
         prep, op = OPS[name]
         readonly = "READONLY" in prep
-        prep = [x for x in prep if x != "READONLY"]
+        tomllink = "TOMLLINK" in prep
+        prep = [x for x in prep if x not in ("READONLY", "TOMLLINK")]
         if prep:
             ps = os.path.join(sdir, "prep.json")
             json.dump({"ops": prep}, open(ps, "w"))
@@ -121,6 +126,10 @@ def prepare(root, name):
                 raise Machinery(f"C12 preparation of {name} failed: {r.stdout!r} {r.stderr!r}")
         if readonly:
             os.chmod(os.path.join(root, "layers", "a"), 0o555)
+        if tomllink:
+            os.makedirs(os.path.join(root, "elsewhere"))
+            os.rename(os.path.join(root, "layers", "a.toml"), os.path.join(root, "elsewhere", "a.toml"))
+            os.symlink("../elsewhere/a.toml", os.path.join(root, "layers", "a.toml"))
         s = os.path.join(sdir, "op.json")
         json.dump({"ops": op}, open(s, "w"))
         return [OPRUNNER, root, s], env, root
